@@ -11,6 +11,12 @@ Witness ==
   /\ (\E i \in 1..Len(hs) : hs[i].origin = "imp" /\ ts[hs[i].text].from # 0 /\ hs[ts[hs[i].text].from].origin = "imp") => TLCSet(13, TRUE)
   /\ (\E n \in 1..Len(hist) : hist[n].op = "verify" /\ hist[n].ok /\ hist[n].key \in Provided) => TLCSet(14, TRUE)
   /\ (\E n \in 1..Len(hist) : hist[n].op = "verify" /\ ~hist[n].ok /\ hist[n].key \in Provided) => TLCSet(15, TRUE)
+  \* a signature by a handle read from a RELAYED text verifies under its key, and fails under the other key
+  /\ (\E n \in 1..Len(hist) : hist[n].op = "verify" /\ hist[n].ok /\ LET h == hs[ss[hist[n].s].by] IN h.origin = "imp" /\ ts[h.text].copy # 0) => TLCSet(16, TRUE)
+  /\ (\E n \in 1..Len(hist) : hist[n].op = "verify" /\ ~hist[n].ok /\ LET h == hs[ss[hist[n].s].by] IN h.origin = "imp" /\ ts[h.text].copy # 0) => TLCSet(17, TRUE)
+  /\ (\E j \in 1..Len(ts) : ts[j].copy # 0 /\ ts[ts[j].copy].copy # 0) => TLCSet(18, TRUE)                 \* a copy of a copy
+\* (the registers are per worker: this model is checked with -workers 1)
 MCInit == Init /\ TLCSet(11, FALSE) /\ TLCSet(12, FALSE) /\ TLCSet(13, FALSE) /\ TLCSet(14, FALSE) /\ TLCSet(15, FALSE)
-NonVacuous == TLCGet(11) /\ TLCGet(12) /\ TLCGet(13) /\ TLCGet(14) /\ TLCGet(15)
+          /\ TLCSet(16, FALSE) /\ TLCSet(17, FALSE) /\ TLCSet(18, FALSE)
+NonVacuous == TLCGet(11) /\ TLCGet(12) /\ TLCGet(13) /\ TLCGet(14) /\ TLCGet(15) /\ TLCGet(16) /\ (MaxOps < 6 \/ TLCGet(17)) /\ TLCGet(18)     \* 17 needs six operations (thorough tier)
 =============================================================================
